@@ -438,16 +438,27 @@ def register(cat):
 
     def gen_aggregator(c, r):
         shape = list(c.g.choice(c.heap_families()))
-        kind = c.g.choice(["count", "width", "beyond"])
+        kind = c.g.choice(["count", "width", "beyond", "beyond_zero", "beyond_cancelling"])
         n = len(shape)
         subs = np.array([[c.g.randrange(s) for s in shape] for _ in range(3)], dtype=int)
-        vals = np.array([[rnd(c.g)] for _ in range(3)])
+        vals = np.array([[rnd(c.g) or 1.5] for _ in range(3)])
         if kind == "count":
             vals = vals[:2]
         elif kind == "width":
             subs = np.hstack([subs, np.zeros((3, 1), dtype=int)])
-        else:
+        elif kind == "beyond":
             subs[1, 0] = shape[0] + 1
+        elif kind == "beyond_zero":
+            # the entry outside the shape carries the value zero (it would not be stored)
+            d = c.g.randrange(n)
+            subs[1, d] = shape[d] + c.g.randint(0, 1)
+            vals[1, 0] = 0.0
+        else:
+            # two entries outside the shape, at the same position, whose sum is zero
+            d = c.g.randrange(n)
+            subs[1, d] = shape[d] + c.g.randint(0, 1)
+            subs[2, :] = subs[1, :]
+            vals[2, 0] = -vals[1, 0]
         return {"operands": [c.fresh(subs), c.fresh(vals)], "shape": shape}
 
     def bad_aggregator(ops, st):
@@ -762,8 +773,21 @@ def register(cat):
         x = c.obj(r)
         if x.ndims < 2:
             return None
-        kind = c.g.choice(["init_length", "init_shape", "dimorder", "init_string"])
+        kind = c.g.choice(["init_length", "init_shape", "dimorder", "init_string", "init_shape_any_mode", "init_shape_any_mode"])
         st: Dict[str, Any] = {"operands": [r], "kind": kind, "ranks": [1] * x.ndims}
+        if kind == "init_shape_any_mode":
+            # a sweep order of the caller's choice, and a factor of the wrong shape in a mode that is not swept first
+            # (the factor of the mode swept first is documented as unused)
+            n = x.ndims
+            order = list(range(n))
+            c.g.shuffle(order)
+            j = c.g.choice(order[1:])
+            fs = [np.asfortranarray(rand_array(c.g, (s, 1))) for s in shp(x)]
+            fs[j] = np.asfortranarray(rand_array(c.g, (shp(x)[j], 2) if c.g.random() < 0.6 else (shp(x)[j] + 1, 1)))
+            st["operands"] = [r] + [c.fresh(f) for f in fs]
+            st["order"] = order
+            st["j"] = j
+            return st
         if kind in ("init_length", "init_shape"):
             fs = [np.asfortranarray(rand_array(c.g, (s, 1))) for s in shp(x)]
             if kind == "init_length":
@@ -779,6 +803,8 @@ def register(cat):
         k = st["kind"]
         if k in ("init_length", "init_shape"):
             return ttb.tucker_als(x, st["ranks"], init=list(ops[1:]), printitn=0, maxiters=1)
+        if k == "init_shape_any_mode":
+            return ttb.tucker_als(x, st["ranks"], init=list(ops[1:]), dimorder=list(st["order"]), printitn=0, maxiters=1)
         if k == "dimorder":
             return ttb.tucker_als(x, st["ranks"], dimorder=[0] * n, printitn=0, maxiters=1)
         return ttb.tucker_als(x, st["ranks"], init="ones", printitn=0, maxiters=1)
@@ -789,6 +815,9 @@ def register(cat):
             return len(ops) - 1 != x.ndims
         if st["kind"] == "init_shape":
             return len(ops) - 1 == x.ndims and ops[-1].shape[0] != shp(x)[-1]
+        if st["kind"] == "init_shape_any_mode":
+            j = st["j"]
+            return len(ops) - 1 == x.ndims and st["order"][0] != j and tuple(ops[1 + j].shape) != (shp(x)[j], 1)
         return x.ndims >= 2
 
     bad("tucker_als_options", "T", gen_tucker, run_tucker, bad_tucker)
